@@ -10,6 +10,7 @@ From Servitor.Facts Require Import TermFacts StyleFacts HtmlFacts MarkupFacts.
 Local Open Scope Z_scope.
 From Servitor Require Import Mime Pub.
 From Servitor.Facts Require Import HtmlFacts MarkupFacts PubFacts.
+From Servitor.Facts Require Import HtmlFacts FrameFacts.
 
 (* every JSON string is scrubbed on extraction: no control character but newline survives, for ALL texts *)
 Theorem scrub_clean :
@@ -136,3 +137,42 @@ Theorem item_safe_neutral :
   forall t : text, good t -> safe_b t = true /\ neutral_b t = true.
 Proof. exact item_safe_neutral_fact. Qed.
 Print Assumptions item_safe_neutral.
+
+(* WHOLE FRAMES - the frame of ANY UI state is well-formed styled text of printable letters provided the items' own texts are (post/actor/failure *_good above); the status line may hold anything the user typed or a hook printed: SetLength sanitises it *)
+Theorem view_good :
+  forall (I C : Type) (preload : Z) (col : colors) (full_text preview_text : I -> Z -> text)
+  (s : Ui.ui I C) (t : text),
+  colors_ok col ->
+  (forall (i : I) (w : Z), good (full_text i w)) ->
+  (forall (i : I) (w : Z), good (preview_text i w)) ->
+  Ui.view I C preload col full_text preview_text s = Ok t -> good t.
+Proof. exact view_good_fact. Qed.
+Print Assumptions view_good.
+
+(* every frame emitted along every history is computed, has the terminal's height and is good *)
+Theorem every_frame_good :
+  forall (I C : Type) (preload : Z) (parents : I -> nat -> list I * option I)
+  (children : I -> option C) (harvest : C -> nat -> nat -> list I * option C * nat)
+  (select_link : I -> Z -> option text) (creators recipients : I -> option (list I))
+  (actor_of : I -> option I) (media pfp banner : I -> option text)
+  (open_link open_user : text -> Ui.opened I C) (feed_named : text -> option C)
+  (hook_fails : text -> option text) (msg_unknown_feed msg_bad_command : text -> text)
+  (col : colors) (full_text preview_text : I -> Z -> text) (s0 s : Ui.ui I C)
+  (sh : Ui.shown I C),
+  UiFacts.ui_inv I C s0 ->
+  frames_inv I C s0 ->
+  reachable_from I C preload parents children harvest select_link creators recipients actor_of
+  media pfp banner open_link open_user feed_named hook_fails msg_unknown_feed
+  msg_bad_command s0 s ->
+  In sh (Ui.u_frames I C s) ->
+  colors_ok col ->
+  0 <= Ui.u_width I C (ui_of_shown I C sh) ->
+  (forall (i : I) (w : Z), good (full_text i w)) ->
+  (forall (i : I) (w : Z), good (preview_text i w)) ->
+  exists t : text,
+  Ui.view I C preload col full_text preview_text (ui_of_shown I C sh) = Ok t /\
+  good t /\
+  (2 <= Ui.u_height I C (ui_of_shown I C sh) ->
+  height t = Ui.u_height I C (ui_of_shown I C sh)).
+Proof. exact every_frame_good_fact. Qed.
+Print Assumptions every_frame_good.
